@@ -14,6 +14,7 @@ package ckd
 //@   requires 0 <= size && size <= 1048576
 //@   ensures len(src) >= size ==> result == src
 //@   ensures len(src) < size ==> (len(result) == size && fresh(result))
+//@   ensures [C18.short-coordinates-are-left-padded-with-zeros] len(src) < size ==> ((forall k in 0..size - len(src) :: result[k] == 0) && (forall k in 0..len(src) :: result[size - len(src) + k] == src[k]))
 
 //@ func paddedAppend
 //@   props C06 C18
